@@ -532,12 +532,25 @@ def rule_restricted(model):
         return None
 
     def dict_of(stmts):
+        """Constant-key bindings established by the statements: a dict
+        display, d.update(k=v) / d.update({...}), d['k'] = v."""
+        out = {}
         for s in stmts:
             for n in ast.walk(s):
                 if isinstance(n, ast.Dict):
-                    return {k.value: v for k, v in zip(n.keys, n.values)
-                            if isinstance(k, ast.Constant)}
-        return {}
+                    for k, v in zip(n.keys, n.values):
+                        if isinstance(k, ast.Constant):
+                            out.setdefault(k.value, v)
+                elif isinstance(n, ast.Call) and isinstance(
+                        n.func, ast.Attribute) and n.func.attr == 'update':
+                    for kw in n.keywords:
+                        if kw.arg is not None:
+                            out.setdefault(kw.arg, kw.value)
+                elif isinstance(n, ast.Assign) and isinstance(
+                        n.targets[0], ast.Subscript) and isinstance(
+                        n.targets[0].slice, ast.Constant):
+                    out.setdefault(n.targets[0].slice.value, n.value)
+        return out
     pc, nc = code_of(pos), code_of(neg)
     r.instance(fi.where, f'guarded branch uses {pc}, unguarded {nc}')
     if pc != 'rcode':
